@@ -10,10 +10,10 @@ if ! git -C "$wt" apply "$d" 2>/dev/null && ! git -C "$wt" apply --3way "$d" >/d
 out=$(mktemp -d /tmp/rcout.XXXXXX)
 alarms=""
 # one process runs every check (development mode); the alarmed ones are re-run singly for their report
-cand=$(VERIF_OUT="$out" "$here/bin/ntripcheck" -property all -repo "$wt" -verif "$here" 2>&1 | awk '/^ALL .* (ALARM|PANIC)/{print $2} /^ALL load-error/{print "LOAD"}')
+cand=$(VERIF_OUT="$out" "${BIN:-$here/bin/ntripcheck}" -property all -repo "$wt" -verif "$here" 2>&1 | awk '/^ALL .* (ALARM|PANIC)/{print $2} /^ALL load-error/{print "LOAD"}')
 case "$cand" in *LOAD*) cand="$props";; esac
 for p in $cand; do
-  r=$(VERIF_OUT="$out" "$here/bin/ntripcheck" -property $p -tier quick -repo "$wt" -verif "$here" 2>&1) || { alarms="$alarms $p"; printf '%s\n' "$r" | grep -A3 '^VIOLATION' | grep -E 'key=|^  [a-zA-Z]' | sed "s#$wt/##g" | head -${RC_LINES:-6} > "$out/$p.txt"; [ -s "$out/$p.txt" ] || printf '%s\n' "$r" | tail -5 | sed 's/^/  RAW: /' > "$out/$p.txt"; }
+  r=$(VERIF_OUT="$out" "${BIN:-$here/bin/ntripcheck}" -property $p -tier quick -repo "$wt" -verif "$here" 2>&1) || { alarms="$alarms $p"; printf '%s\n' "$r" | grep -A3 '^VIOLATION' | grep -E 'key=|^  [a-zA-Z]' | sed "s#$wt/##g" | head -${RC_LINES:-6} > "$out/$p.txt"; [ -s "$out/$p.txt" ] || printf '%s\n' "$r" | tail -5 | sed 's/^/  RAW: /' > "$out/$p.txt"; }
 done
 echo "$1 alarms=[$alarms ]"
 for p in $alarms; do echo "  -- $p"; cat "$out/$p.txt"; done
